@@ -76,6 +76,9 @@ typedef struct vnacal_new_parameter {
     /* next parameter in hash chain */
     struct vnacal_new_parameter *vnpr_hash_next;
 
+    /* order of registration in the vnacal_new_t, for roll-back */
+    int vnpr_serial;
+
 } vnacal_new_parameter_t;
 
 #define vnpr_unknown_index	u.vnpr_unknown.unknown_index
@@ -94,6 +97,9 @@ typedef struct vnacal_new_parameter_hash {
 
     /* number of elements stored in hash table */
     int vnph_count;
+
+    /* serial number the next registered parameter gets */
+    int vnph_next_serial;
 
 } vnacal_new_parameter_hash_t;
 
@@ -579,9 +585,10 @@ static inline double complex vs_get_v(vnacal_new_solve_state_t *vnssp)
     return vnmmp->vnsm_v_matrices[vnssp->vnss_sindex][v_cell];
 }
 
-/* _vnacal_new_rollback_parameters: drop newly registered unknown parameters */
+/* _vnacal_new_rollback_parameters: drop newly registered parameters */
 extern void _vnacal_new_rollback_parameters(vnacal_new_t *vnp,
-	vnacal_new_parameter_t **anchor, int unknowns, int correlated);
+	vnacal_new_parameter_t **anchor, int unknowns, int correlated,
+	int serial);
 
 /* _vnacal_new_get_parameter: add/find parameter and return held */
 extern vnacal_new_parameter_t *_vnacal_new_get_parameter(
